@@ -4,6 +4,7 @@ import (
 	"bytes"
 	"encoding/binary"
 	"fmt"
+	"github.com/veraison/psatoken"
 	"runtime"
 	"strings"
 	"syscall"
@@ -128,7 +129,7 @@ func runC06(c *mon.Ctx) {
 	runtime.LockOSThread()
 	// a call that never returns is caught while it runs (the meter below only sees calls that return)
 	mon.StartWatchdog(time.Duration(c06CPUSeconds*float64(time.Second)), "cpu-bound-exceeded")
-	c.Rule("every decoding entry point of C05, metered per call in a worker that runs nothing else (locked OS thread): bytes allocated = delta of runtime.MemStats.TotalAlloc (exact), CPU = delta of getrusage(RUSAGE_THREAD); worker under RLIMIT_AS = 4 GiB so that a reservation bomb dies at once and is attributed through the write-ahead log. Inputs (<= 64 KiB): LENGTH BOMBS - for major types 2,3,4,5 and tags, argument widths 1/2/4/8, declared lengths {2^8-1, 2^8, 2^16-1, 2^16, 2^24, 2^31-1, 2^31, 2^32-1, 2^63, 2^64-1} followed by 0..16 bytes, placed at top level, as the value of every known claim key of an otherwise valid token of either profile, inside a component, as a component list, and at each of the four COSE positions (also inside the payload); DEPTH BOMBS - nesting 1..600 of arrays / maps / tags in CBOR (top level, under unknown and known keys), 10^2..2*10^4 in JSON (arrays, objects); WIDTH - up to 64 KiB of one-byte items (nulls, empty maps, empty arrays, zeros) as top-level array, as component list, under unknown keys; JSON arrays of zeros, many short keys, many duplicate keys, long strings, long escapes, 10^5-digit numbers; plus the structure-aware mutants of C05. Oracle: allocated <= 1 MiB + 1 KiB x len(input) and CPU <= 5 s for every call (calls that return are metered after the fact; an in-process watchdog ends the worker as soon as ONE call has used more than 5 s of CPU, which is how a call that never returns is caught and attributed through the write-ahead log); no process death. A wall-clock watchdog firing is reported as inconclusive, never as a violation. Also honest VALID tokens that are merely large: one text claim (VSI, component description / type / version) of 1 000 .. 64 000 characters (ASCII, two-octet, control, blank), CBOR and JSON, through every entry point incl. the validating ones. VALUE BOMBS: short well-formed numbers whose value is huge (JSON exponents up to 1e999999999, integral numbers written with fraction / exponent; CBOR bignums, decimal fractions and bigfloats with 2^63 exponents, edge floats) under every numeric member / key of both profiles, the extensions and the populate shapes. distinct_nontrivial = distinct (class, position, major type, width, declared length) signatures")
+	c.Rule("every decoding entry point of C05, metered per call in a worker that runs nothing else (locked OS thread): bytes allocated = delta of runtime.MemStats.TotalAlloc (exact), CPU = delta of getrusage(RUSAGE_THREAD); worker under RLIMIT_AS = 4 GiB so that a reservation bomb dies at once and is attributed through the write-ahead log. Inputs (<= 64 KiB): LENGTH BOMBS - for major types 2,3,4,5 and tags, argument widths 1/2/4/8, declared lengths {2^8-1, 2^8, 2^16-1, 2^16, 2^24, 2^31-1, 2^31, 2^32-1, 2^63, 2^64-1} followed by 0..16 bytes, placed at top level, as the value of every known claim key of an otherwise valid token of either profile, inside a component, as a component list, and at each of the four COSE positions (also inside the payload); DEPTH BOMBS - nesting 1..600 of arrays / maps / tags in CBOR (top level, under unknown and known keys), 10^2..2*10^4 in JSON (arrays, objects); WIDTH - up to 64 KiB of one-byte items (nulls, empty maps, empty arrays, zeros) as top-level array, as component list, under unknown keys; JSON arrays of zeros, many short keys, many duplicate keys, long strings, long escapes, 10^5-digit numbers; plus the structure-aware mutants of C05. Oracle: allocated <= 1 MiB + 1 KiB x len(input) and CPU <= 5 s for every call (calls that return are metered after the fact; an in-process watchdog ends the worker as soon as ONE call has used more than 5 s of CPU, which is how a call that never returns is caught and attributed through the write-ahead log); no process death. A wall-clock watchdog firing is reported as inconclusive, never as a violation. Also honest VALID tokens that are merely large: one text claim (VSI, component description / type / version) of 1 000 .. 64 000 characters (ASCII, two-octet, control, blank), CBOR and JSON, through every entry point incl. the validating ones. VALUE BOMBS: short well-formed numbers whose value is huge (JSON exponents up to 1e999999999, integral numbers written with fraction / exponent; CBOR bignums, decimal fractions and bigfloats with 2^63 exponents, edge floats) under every numeric member / key of both profiles, the extensions and the populate shapes. LATE REGISTRATION: the last shard finally registers a further profile and then decodes the same small profile-less JSON documents 5000 more times (the cost of a call must not grow with the number of earlier calls). distinct_nontrivial = distinct (class, position, major type, width, declared length) signatures")
 	if err := extprof.Register(extprof.ExtP2Name, extprof.ExtP1Name); err != nil {
 		c.Violation("harness/register", err.Error(), nil)
 		return
@@ -653,6 +654,30 @@ func runC06(c *mon.Ctx) {
 		if i%20 == 0 {
 			c.Sig("mutant|" + fam + "|" + it.kind)
 		}
+	}
+	// ---- LATE REGISTRATION (seeded fault C06-v: a cache of profile member names that is
+	// rebuilt - by appending - whenever its length differs from the register's): in the
+	// last shard only, and as the very last thing it does, a profile is registered AFTER
+	// thousands of JSON decodes, then the same small profile-less documents are decoded
+	// 5000 more times: the cost of call number k must not depend on k.
+	if c.Shard == c.NShards-1 {
+		docs := [][]byte{}
+		for p := 1; p <= 2; p++ {
+			a := g.Valid(p)
+			a.Profile = nil
+			docs = append(docs, a.WireJSON())
+		}
+		docs = append(docs, []byte(`{"psa-client-id":1}`), []byte(`{}`))
+		for i := 0; i < 20; i++ {
+			m.run("json", "before-late-registration", docs[i%len(docs)])
+		}
+		if err := psatoken.RegisterProfile(extprof.NumberedProfile{Name: "http://example.com/c06/late-registration", Base: 2}); err != nil {
+			c.Violation("harness/register", "late registration failed: "+err.Error(), nil)
+		}
+		for i := 0; i < 5000; i++ {
+			m.run("json", "after-late-registration", docs[i%len(docs)])
+		}
+		c.Sig("late-registration")
 	}
 	c.Extra("bound", "allocated_bytes <= 1 MiB + 1 KiB x len(input); thread CPU <= 5 s")
 	c.Extra(fmt.Sprintf("shard_%d_worst_case", c.Shard), map[string]any{"max_alloc_over_bound_ratio": m.maxRate, "max_allocated_bytes": m.maxAbs, "max_cpu_s": m.maxCPU, "case": m.worst})
